@@ -5,7 +5,7 @@ import "fmt"
 // family optimization (C19)
 func genOptimization(r *rng, index int) *Spec {
 	semi := index%5 != 4
-	mode := (index / 5) % 6 // 5 batch restore with one failing host; 0 random, 1 crowded registry, 2 failover, 3 fault windows, 4 switchover with failing restore
+	mode := (index / 5) % 7 // 6 unreadable registry entry of the relaxed host; 5 batch restore with one failing host; 0 random, 1 crowded registry, 2 failover, 3 fault windows, 4 switchover with failing restore
 	sp := baseSpec(r, shapeOpt{minHA: 3, maxHA: 4, cascade: 0.3, semiSync: &semi})
 	c := &sp.Cfg
 	ha := sp.haNames()
@@ -70,6 +70,22 @@ func genOptimization(r *rng, index int) *Spec {
 			script = append(script, "reg("+h+")")
 		}
 	}
+	if mode == 6 && len(repl) >= 2 {
+		// the entry of the replica that is already relaxed cannot be read (an external tool left
+		// garbage in it); another registered replica is waiting for its turn
+		r1, r2 := repl[0], repl[1]
+		sp.Timeline = append(sp.Timeline, TLEvent{AtMs: 70, Kind: "zk_set", Arg: "/test/optimization_nodes/" + r1, Arg2: []string{`not json{`, `[]`, `12345`}[r.intn(3)]})
+		sp.Timeline = append(sp.Timeline, TLEvent{AtMs: 70, Kind: "zk_set", Arg: "/test/optimization_nodes/" + r2, Arg2: `{"status":""}`})
+		sp.hostSpecByName(r1).Init.FlushLog, sp.hostSpecByName(r1).Init.SyncBinlog = 2, 1000
+		mi := sp.hostSpecByName(master).Init
+		sp.hostSpecByName(r2).Init.FlushLog, sp.hostSpecByName(r2).Init.SyncBinlog = 0, 0
+		if mi != nil {
+			sp.hostSpecByName(r2).Init.FlushLog, sp.hostSpecByName(r2).Init.SyncBinlog = mi.FlushLog, mi.SyncBinlog
+		}
+		sp.Timeline = append(sp.Timeline, TLEvent{AtMs: 110, Kind: "lag", Host: r1, N: 5000})
+		sp.Timeline = append(sp.Timeline, TLEvent{AtMs: 110, Kind: "lag", Host: r2, N: 4000})
+		script = append(script, fmt.Sprintf("unreadable_entry(%s) waiting(%s)", r1, r2))
+	}
 	sp.Timeline = append(sp.Timeline, TLEvent{AtMs: 50, Kind: "zk_set", Arg: "/test/optimization_nodes", Arg2: `""`})
 	if r.chance(0.12) {
 		sp.Timeline = append(sp.Timeline, TLEvent{AtMs: 60, Kind: "zk_set", Arg: "/test/optimization_nodes/" + master, Arg2: `{"status":""}`})
@@ -81,6 +97,9 @@ func genOptimization(r *rng, index int) *Spec {
 	}
 	T := int64(9000)
 	nEv := r.rangeInt(2, 7)
+	if mode == 6 {
+		nEv = r.intn(2)
+	}
 	if mode == 5 {
 		h := repl[r.intn(len(repl))]
 		pre := []string{"SET GLOBAL sync_binlog", "SET GLOBAL innodb_flush_log_at_trx_commit"}[r.intn(2)]
